@@ -212,6 +212,17 @@ fn main() {
                 }
                 if i % 211 == 0 { rep.sample(json!({"text": text, "order": c.order}), 8); }
             }
+            // text-only cases: ill-typed pieces that are never evaluated (iteration over an empty range): every text entry point
+            // must give the same verdict (the type checker's)
+            let probes = ["    zq <= 1 for i in 0..0", "    sum(i in 0..0) { \"a\" * 2 } <= 1", "    nope(1) <= 1 for i in 0..0", "    sum((a, b2) in 0..0) { a } <= 1", "    1 <= 2 for i in 0..0"];
+            for i in 0..(n / 5).max(probes.len()) {
+                let c = gen_case(&mut r, i);
+                let text = text_of(&c);
+                let probe = probes[i % probes.len()];
+                let text = text.replacen("\ndefine\n", &format!("\n{}\ndefine\n", probe), 1);
+                writeln!(jf, "{}", json!({"case": serde_json::Value::Null, "text": text})).unwrap();
+                rep.count("text_only_cases");
+            }
             rep.add("cases", n as u64);
             rep.write(&format!("{outdir}/report.json"));
         }
@@ -223,10 +234,12 @@ fn main() {
             for (i, line) in file.lines().enumerate() {
                 if i < start_i { continue; }
                 let v: Value = serde_json::from_str(&line.unwrap()).unwrap();
-                let c: Case = serde_json::from_value(v["case"].clone()).unwrap();
                 let text = v["text"].as_str().unwrap().to_string();
+                let text_only = v["case"].is_null();
+                let c: Case = if text_only { Case { decls: vec![], cons: vec![], dir: 2, obj: BT::Num(0.0), order: 0, extra: vec![] } } else { serde_json::from_value(v["case"].clone()).unwrap() };
                 for k in 0..3 {
                     if i == start_i && k < start_k { continue; }
+                    if text_only && k == 0 { let mut o = out.lock(); writeln!(o, "R {} 0 {}", i, json!({"status":"n/a"})).unwrap(); o.flush().unwrap(); continue; }
                     { let mut o = out.lock(); writeln!(o, "S {} {}", i, k).unwrap(); o.flush().unwrap(); }
                     let res = std::panic::catch_unwind(|| match k {
                         0 => { let (mb, vars) = build(&c);
